@@ -1641,7 +1641,10 @@ func (vm *Vm) Call(argc int32, starArgs py.Object, starKwargs py.Object) error {
 	p, q := len(vm.frame.Stack)-2*nkwargs, len(vm.frame.Stack)
 	kwargsTuple := vm.frame.Stack[p:q]
 	p, q = p-nargs, p
-	args := py.Tuple(vm.frame.Stack[p:q])
+	// Copy the arguments: the callee may keep the tuple (*args) and
+	// the stack slots are reused by later instructions
+	args := make(py.Tuple, nargs)
+	copy(args, vm.frame.Stack[p:q])
 	p, q = p-1, p
 	fn := vm.frame.Stack[p]
 	// Drop everything off the stack
